@@ -257,11 +257,11 @@ def build(cfg, comps, reference=None, reuse=None):
     raise ValueError(st)
 
 
-def run_adaptive(s, eo, lmin, lmax, tol, max_evaluations, min_evaluations=1, reevaluate_at_end=False):
+def run_adaptive(s, eo, lmin, lmax, tol, max_evaluations, min_evaluations=1, reevaluate_at_end=False, solutions_storage=None):
     """performSpatiallyAdaptiv of the real instance; returns the tuple with result[3] copied."""
     with quiet():
         r = s.performSpatiallyAdaptiv(lmin, lmax, eo, tol, max_evaluations=max_evaluations, min_evaluations=min_evaluations,
-                                      reevaluate_at_end=reevaluate_at_end, print_output=False)
+                                      reevaluate_at_end=reevaluate_at_end, print_output=False, solutions_storage=solutions_storage)
     return _freeze(r)
 
 
@@ -271,8 +271,15 @@ def continue_adaptive(s, tol, max_evaluations, min_evaluations=1):
     return _freeze(r)
 
 
+class _Result(list):
+    """Returned tuple with result[3] copied; .raw3 is the very object the library returned (never copied: report-stability checks)."""
+    raw3 = None
+
+
 def _freeze(r):
-    r = list(r)
+    raw3 = r[3]
+    r = _Result(r)
+    r.raw3 = raw3
     r[3] = np.array(r[3], dtype=float).copy()
     r[5], r[6], r[7] = list(r[5]), list(r[6]), list(r[7])
     return r
